@@ -191,6 +191,10 @@ def replay(inp):
         g = mk_grid(rows)
         got = [str(r['id']) for r in g.filter('siteRef->geoCity == "Chicago"')]
         return {'reproduced': got != ['@e1'], 'detail': 'rows whose id is a Ref: siteRef->geoCity selects %r' % (got,)}
+    if inp.get('kind') in ('header', 'rowloop'):
+        bad = header_cases()
+        if bad or inp.get('kind') == 'header':
+            return {'reproduced': bool(bad), 'detail': bad}
     if inp.get('kind') == 'compare':
         # a refuted clause of _compare's contract for one operator: the operator against literals of every kind on rows where the tag is absent /
         # of another kind, judged by the reference semantics
@@ -210,6 +214,30 @@ def replay(inp):
     out = bounded('quick', 0)
     fl = [f for f in out['failures'] if not any(_re.search(p_, f.get('id', '')) for p_ in pats)]        # a listed finding is not a reproduction of something else
     return {'reproduced': bool(fl), 'detail': [f['what'] for f in fl[:3]]}
+
+
+def header_cases():
+    """version / metadata / columns of the result are those of the source grid - also when the source's version was detected from its content and
+    the content that decided it is not among the selected rows"""
+    import hszinc
+    from hszinc import Grid, MARKER, NA
+    bad = []
+    for extra in ([1.0, 2.0], {'k': 1.0}, NA, hszinc.XStr('hex', '00')):
+        for flt, limit in (('site', 0), ('site', 1), ('not tags', 1)):
+            g = Grid(metadata={'dis': 'sites'}, columns={'id': {}, 'site': {'doc': 'x'}, 'tags': {}})
+            g.append({'id': 'r1', 'site': MARKER})
+            g.append({'id': 'r2', 'tags': extra})
+            g.append({'id': 'r3', 'site': MARKER})
+            try:
+                res = g.filter(flt, limit)
+            except Exception as e:
+                bad.append('filter(%r, %d) on a grid whose version was detected raised %r' % (flt, limit, e))
+                continue
+            if str(res.version) != str(g.version) or list(res.metadata.items()) != list(g.metadata.items()) or list(res.column.keys()) != list(g.column.keys()) \
+                    or dict(res.column['site']) != dict(g.column['site']):
+                bad.append('filter(%r, %d): source grid is version %s (detected, because of a %s cell in a row that is not selected); the result is version %s'
+                           % (flt, limit, g.version, type(extra).__name__, res.version))
+    return bad[:3]
 
 
 _bounded_inner = bounded
@@ -235,6 +263,9 @@ def bounded(tier, seed):
             out['failures'].append({'id': 'C11/A-pp/' + nm, 'what': 'E3 semantics %r, pyparsing %r on %r' % (b['semantics'], b['pyparsing'], b['text']), 'input': {'kind': 'app', 'element': nm, 'text': b['text']}})
     out['cases'] += n_diff
     out['bound'] = out.get('bound', '') + '; %d generated inputs comparing the compiled filter-grammar semantics with the real pyparsing elements' % n_diff
+    for bad in header_cases():
+        out['failures'].append({'id': 'C11/header', 'what': bad, 'input': {'kind': 'header'}})
+    out['cases'] += 12
     r = replay({'kind': 'ref_id_deref'})
     out['cases'] += 1
     if r['reproduced']:
